@@ -98,7 +98,7 @@ F_Leaves ==
     [] Family = "calls"  -> Ints({1}) \cup {L(NNil, "nil"), Mem("I"), Mem("P")}
     [] Family = "inlit"  -> Ints({1, 2, 300}) \cup Strs({"a"}) \cup {Mem("I64"), Mem("F"), Mem("K"), Mem("Big"), Mem("U8")}
     [] Family = "ovlt"   -> {Mem("I"), Mem("F")}             \* several overloaded occurrences of different operand types
-    [] Family = "nest2"  -> Ints({1}) \cup Strs({"a"}) \cup {Mem("Ss"), Mem("Xs")}   \* nested closures over different element types
+    [] Family = "nest2"  -> Ints({1}) \cup Strs({"a"}) \cup {Mem("Ss"), Mem("Xs"), L(NBool(TRUE), "bool")}   \* nested closures over different element types
     [] Family = "cexpr"  -> Ints({1}) \cup Strs({"1", "a"}) \cup {L(NFloat("1.0", 1, 0), "float64"), Mem("I")}
     [] Family = "rng"    -> Ints({1, 3}) \cup {Mem("I"), Mem("J")}
     [] Family = "order"  -> Ints({0, 1, 2}) \cup {Mem("Xs"), Mem("I"), Mem("F"), Mem("S"), Mem("I64")}
